@@ -6,7 +6,7 @@ import itertools
 import os
 import struct
 
-from mc import recs
+from mc import envleg, recs
 from mc.alphabets import alphabet
 from mc.faults import drain
 from mc.obs import obs_list
@@ -104,6 +104,8 @@ def write_file(records, closing):
                 res.append("ok")
             except Exception as e:  # noqa: BLE001
                 res.append(e)
+            if closing == "flush-between":
+                w.flush()
 
     try:
         if closing == "with":
@@ -111,6 +113,8 @@ def write_file(records, closing):
                 feed(w)
         else:
             w = RecordWriter(p)
+            if closing in ("flush-first", "flush-between"):
+                w.flush()  # a flush before anything was written
             feed(w)
             w.flush()
             w.close()
@@ -120,6 +124,8 @@ def write_file(records, closing):
 
 
 def run_case(case):
+    if case.get("env") and not envleg.in_env(case):
+        return envleg.run_single("checks.c19", case)
     import fastavro
 
     from flow.record import RecordReader
@@ -134,7 +140,7 @@ def run_case(case):
     outs = []
     label = case.get("label", case["kind"])
     n = 0
-    for closing in ("flushclose", "with"):
+    for closing in ("flushclose", "with", "flush-first", "flush-between"):
         n += 1
         p, res, cexc = write_file(records, closing)
         try:
@@ -258,4 +264,8 @@ def main(tier, seed, workers=None):
     run.assumptions = ["fastavro.reader opened directly on the file is the 'standard Avro reader'",
                        "out-of-range values may be refused or stored exactly; they may not be stored as something else"]
     explore(run, cases(tier, seed), run_case, workers, chunk=16)
+    # the process time zone (TZ, read by the C library at start-up) must not move an instant: value / pair cases in child interpreters
+    tzcases = [c for c in cases("quick", seed) if c["kind"] == "pair" or (c["kind"] == "value" and c["t"] == "datetime")]
+    for env in ({"TZ": "America/New_York"}, {"TZ": "Asia/Tokyo", "FLOW_RECORD_TZ": "Europe/Amsterdam"}):
+        envleg.explore_env(run, "checks.c19", tzcases, env, workers)
     return run.finish(lambda case: [v[0] for v in run_case(case)["viol"]])
